@@ -416,7 +416,10 @@ pub fn run(args: &[String]) -> Value {
                 }
             }
             "error" => {
-                if !(exp_status == "error" && exp["v"].as_str() == Some(r.detail.as_str())) {
+                let allowed = case["allow_exec"].as_array().map(|a| a.iter().any(|x| x.as_str() == Some(r.detail.as_str()))).unwrap_or(false);
+                if allowed {
+                    *counts.entry("exec-error-as-allowed".into()).or_insert(0) += 1;
+                } else if !(exp_status == "error" && exp["v"].as_str() == Some(r.detail.as_str())) {
                     bad("outcome", format!("run-time error {} observed", r.detail), &mut mm);
                 } else if let (Some(el), Some(gl)) = (exp["log"].as_array(), &r.log) {
                     let el: Vec<i64> = el.iter().filter_map(Value::as_i64).collect();
